@@ -220,6 +220,282 @@ def batch(arg):
     return part
 
 
+def struct_batch(arg):
+    """Regions of statements whose designators go through derived types
+    (outside the reference interpreter): the variables a region reads before
+    it can have written them, and the ones it modifies, are known by
+    construction (subscript variables are never written; structure bases are
+    only ever written in part)."""
+    from psyclone.psyir.nodes import Routine, CodeBlock
+    from psyclone.psyir.tools import CallTreeUtils
+    from vf.checks import c11
+    part = Part()
+    rnd = random.Random(arg["seed"])
+    for n in range(arg["count"]):
+        stmts = c11.struct_statements(rnd)
+        text = c11.STRUCT_HEAD + "".join("    %s\n" % l for st in stmts
+                                         for l in st[0]) + \
+            "  end subroutine kern\nend module smod\n"
+        try:
+            tree = psy.read(text)
+        except Exception:
+            part.count("struct_reader_failed")
+            continue
+        kern = [r for r in tree.walk(Routine) if r.name == "kern"][0]
+        if len(kern.children) != len(stmts):
+            part.count("statement_mapping_failed")
+            continue
+        regions = [(i, j) for i in range(len(stmts))
+                   for j in range(i, len(stmts))]
+        rnd.shuffle(regions)
+        for (i, j) in regions[:arg["regions"]]:
+            nodes = kern.children[i:j + 1]
+            if any(x.walk(CodeBlock) for x in nodes):
+                continue
+            try:
+                rwi = CallTreeUtils().get_in_out_parameters(nodes)
+                ins = {str(s_).lower().split("%")[0]
+                       for s_ in rwi.signatures_read}
+                outs = {str(s_).lower().split("%")[0]
+                        for s_ in rwi.signatures_written}
+            except NotImplementedError:
+                part.count("in_out_declined:NotImplementedError")
+                continue
+            except Exception as err:
+                part.count("in_out_raised:" + type(err).__name__)
+                continue
+            part.count("regions_analysed")
+            part.count("struct_regions_analysed")
+            exp_in, exp_out = set(), set()
+            for lines, kind, rexp, wexp in stmts[i:j + 1]:
+                exp_in |= set(rexp)
+                exp_out |= set(wexp)
+            exp_in.discard("d")
+            exp_out.discard("d")
+            rtxt = " ; ".join(st[0][0] for st in stmts[i:j + 1])[:300]
+            for var in sorted(exp_in - ins):
+                # known mechanism (same as the interpreter-based monitor):
+                # the FIRST statement of the region that touches the base
+                # writes (part of) it without reading it, a later one reads it
+                first = [st for st in stmts[i:j + 1]
+                         if var in st[2] or var in st[3]][0]
+                wf = var in first[3] and var not in first[2]
+                part.violation({
+                    "kind": "upward_exposed_read_not_in_inputs",
+                    "mechanism": "written_first.partial_array" if wf
+                    else None,
+                    "what": "region '%s' reads %s (subscript or base of a "
+                            "structure access) but the inputs are %s" % (
+                                rtxt, var, sorted(ins)),
+                    "source": text, "dedupe": ("struct", "in")})
+            for var in sorted(exp_out - outs):
+                part.violation({
+                    "kind": "modified_variable_not_an_output",
+                    "mechanism": None,
+                    "what": "region '%s' modifies %s but the outputs are %s"
+                            % (rtxt, var, sorted(outs)),
+                    "source": text, "dedupe": ("struct", "out")})
+        part.case(key=("struct", text), nontrivial=True)
+    return part
+
+
+NL_ALG = """
+program demo_alg
+  use constants_mod, only: r_def
+  use field_mod,     only: field_type
+  use demo_kern_mod, only: demo_kern_type
+  implicit none
+  type(field_type) :: f1, f2
+  real(r_def)      :: a
+  call invoke(demo_kern_type(a, f1, f2))
+end program demo_alg
+"""
+
+NL_KERN = """
+module demo_kern_mod
+  use argument_mod
+  use fs_continuity_mod
+  use kernel_mod
+  implicit none
+  type, extends(kernel_type) :: demo_kern_type
+     type(arg_type), dimension(3) :: meta_args =        &
+          (/ arg_type(gh_scalar, gh_real, gh_read),     &
+             arg_type(gh_field,  gh_real, gh_inc,  w1), &
+             arg_type(gh_field,  gh_real, gh_read, w2)  &
+           /)
+     integer :: operates_on = cell_column
+   contains
+     procedure, nopass :: code => demo_kern_code
+  end type demo_kern_type
+contains
+  subroutine demo_kern_code(nlayers, ascalar, fld1, fld2,  &
+                            ndf_w1, undf_w1, map_w1,       &
+                            ndf_w2, undf_w2, map_w2)
+    use constants_mod, only: i_def, r_def
+    use shared_state_mod, only: %(only)s
+    implicit none
+    integer(kind=i_def), intent(in) :: nlayers
+    integer(kind=i_def), intent(in) :: ndf_w1, ndf_w2
+    integer(kind=i_def), intent(in) :: undf_w1, undf_w2
+    integer(kind=i_def), intent(in), dimension(ndf_w1) :: map_w1
+    integer(kind=i_def), intent(in), dimension(ndf_w2) :: map_w2
+    real(kind=r_def), intent(in) :: ascalar
+    real(kind=r_def), intent(inout), dimension(undf_w1) :: fld1
+    real(kind=r_def), intent(in), dimension(undf_w2)  :: fld2
+    integer :: current
+    current = 0
+%(calls)s
+    fld1(map_w1(1)) = fld1(map_w1(1)) + ascalar*fld2(map_w2(1)) + current
+  end subroutine demo_kern_code
+end module demo_kern_mod
+"""
+
+
+def nonlocal_batch(arg):
+    """Module variables reached only through the kernel's call tree
+    (collect_non_local_symbols=True, the LFRic extraction path): a shared
+    module holds 2-4 variables and 2-5 routines that read, write or update
+    them; the kernel calls a random selection in random order.  By
+    construction: a variable that some called routine modifies is an output;
+    one whose first access along the call sequence is a read is an input."""
+    import shutil
+    import tempfile
+    from psyclone.configuration import Config
+    from psyclone.core import Signature
+    from psyclone.parse import ModuleManager
+    from psyclone.parse.algorithm import parse
+    from psyclone.psyGen import PSyFactory
+    from psyclone.psyir.tools import CallTreeUtils
+    part = Part()
+    rnd = random.Random(arg["seed"])
+    for n in range(arg["count"]):
+        nv = rnd.randint(2, 4)
+        vars_ = ["gv%d" % k for k in range(nv)]
+        routines = []
+        for k in range(rnd.randint(2, 5)):
+            acc = {}
+            body = []
+            for v in rnd.sample(vars_, rnd.randint(1, min(2, nv))):
+                how = rnd.choice(["read", "write", "update"])
+                acc[v] = how
+                if how == "read":
+                    body.append("    val = val + %s" % v)
+                elif how == "write":
+                    body.append("    %s = 7" % v)
+                else:
+                    body.append("    %s = %s + 1" % (v, v))
+            routines.append(("r%d" % k, acc, body))
+        # one routine may call another one (indirect access)
+        nested = None
+        if len(routines) > 2 and rnd.random() < 0.5:
+            a, b = rnd.sample(range(len(routines)), 2)
+            nested = (routines[a][0], routines[b][0])
+        shared = ["module shared_state_mod", "  implicit none"]
+        shared += ["  integer :: %s" % v for v in vars_]
+        shared.append("contains")
+        for name, acc, body in routines:
+            shared += ["  subroutine %s(val)" % name,
+                       "    integer, intent(inout) :: val"] + body
+            if nested and nested[0] == name:
+                shared.append("    call %s(val)" % nested[1])
+            shared.append("  end subroutine %s" % name)
+        shared.append("end module shared_state_mod")
+        called = rnd.sample(routines, rnd.randint(1, len(routines)))
+        rnd.shuffle(called)
+        # expected sets from the dynamic call sequence
+        byname = {r[0]: r for r in routines}
+        seq = []
+        for name, acc, body in called:
+            seq.append(name)
+            if nested and nested[0] == name:
+                seq.append(nested[1])
+        first, written = {}, set()
+        for name in seq:
+            for v, how in byname[name][1].items():
+                if how in ("read", "update") and v not in first:
+                    first[v] = "read"
+                if how == "write" and v not in first:
+                    first[v] = "write"
+                if how in ("write", "update"):
+                    written.add(v)
+        exp_in = {v for v, h in first.items() if h == "read"}
+        exp_out = written
+        tmp = tempfile.mkdtemp(prefix="vf_c12nl_")
+        try:
+            # fparser keeps module information by name across parses: every
+            # case gets its own module names
+            uniq = "%d_%d" % (n, rnd.randrange(10 ** 6))
+            files = {
+                "demo_alg.f90": NL_ALG,
+                "demo_kern_mod.f90": NL_KERN % {
+                    "only": ", ".join(r[0] for r in called),
+                    "calls": "\n".join("    call %s(current)" % r[0]
+                                       for r in called)},
+                "shared_state_mod.f90": "\n".join(shared) + "\n"}
+            files = {k.replace("demo_kern_mod", "demo_kern%s_mod" % uniq)
+                     .replace("shared_state_mod", "shared_state%s_mod" % uniq):
+                     v.replace("demo_kern_mod", "demo_kern%s_mod" % uniq)
+                     .replace("shared_state_mod", "shared_state%s_mod" % uniq)
+                     for k, v in files.items()}
+            shared_name = "shared_state%s_mod" % uniq
+            for fn, src in files.items():
+                with open(os.path.join(tmp, fn), "w") as fh:
+                    fh.write(src)
+            Config.get().api = "lfric"
+            ModuleManager._instance = None
+            try:
+                _, info = parse(os.path.join(tmp, "demo_alg.f90"),
+                                api="lfric", kernel_paths=[tmp])
+                psy_ = PSyFactory("lfric",
+                                  distributed_memory=False).create(info)
+                sched = psy_.invokes.invoke_list[0].schedule
+                mm = ModuleManager.get()
+                mm.add_search_path(tmp)
+                for mod in ["constants_mod", "argument_mod",
+                            "fs_continuity_mod", "kernel_mod"]:
+                    mm.add_ignore_module(mod)
+                import contextlib
+                import io
+                with contextlib.redirect_stdout(io.StringIO()):
+                    rwi = CallTreeUtils().get_in_out_parameters(
+                        sched.children, collect_non_local_symbols=True)
+            except Exception as err:
+                part.count("nonlocal_setup_failed:" + type(err).__name__)
+                continue
+            ins = {str(sig) for m, sig in rwi.read_list
+                   if m == shared_name}
+            outs = {str(sig) for m, sig in rwi.write_list
+                    if m == shared_name}
+            part.count("regions_analysed")
+            part.count("nonlocal_regions_analysed")
+            desc = "kernel calls %s; routines %s%s" % (
+                [r[0] for r in called],
+                {r[0]: r[1] for r in routines},
+                "; %s calls %s" % nested if nested else "")
+            for v in sorted(exp_in - ins):
+                part.violation({
+                    "kind": "upward_exposed_read_not_in_inputs",
+                    "mechanism": None,
+                    "what": "non-local %s is read first but the inputs are "
+                            "%s (%s)" % (v, sorted(ins), desc),
+                    "source": "".join(files.values()),
+                    "dedupe": ("nonlocal", "in")})
+            for v in sorted(exp_out - outs):
+                part.violation({
+                    "kind": "modified_variable_not_an_output",
+                    "mechanism": None,
+                    "what": "non-local %s is modified but the outputs are "
+                            "%s (%s)" % (v, sorted(outs), desc),
+                    "source": "".join(files.values()),
+                    "dedupe": ("nonlocal", "out")})
+            part.case(key=("nonlocal", "\n".join(shared),
+                           tuple(r[0] for r in called)), nontrivial=True)
+        finally:
+            ModuleManager._instance = None
+            shutil.rmtree(tmp, ignore_errors=True)
+    return part
+
+
 def main(ctx):
     ctx.rule = ("kernels of 5-9 top-level statements (partial array writes, "
                 "conditionally written scalars, loops over half an array, "
@@ -251,10 +527,24 @@ def main(ctx):
     for res in ctx.pmap("vf.checks.c12", "batch", jobs, timeout=3400):
         if res:
             ctx.merge(res)
+    sjobs = [{"seed": ctx.rng("s", i).random(),
+              "count": 40 if ctx.quick else 300, "regions": 6}
+             for i in range(16)]
+    for res in ctx.pmap("vf.checks.c12", "struct_batch", sjobs, timeout=3400):
+        if res:
+            ctx.merge(res)
+    njobs = [{"seed": ctx.rng("n", i).random(),
+              "count": 6 if ctx.quick else 60} for i in range(16)]
+    for res in ctx.pmap("vf.checks.c12", "nonlocal_batch", njobs,
+                        timeout=3400):
+        if res:
+            ctx.merge(res)
     if ctx.counters.get("replays", 0) == 0:
         ctx.inconclusive("no region was replayed")
     ctx.assumptions += [
         "lists come from CallTreeUtils.get_in_out_parameters (the API the "
         "extraction transformations use); variable-name granularity",
         "poison = 'value not provided'; a variable that the region never "
-        "touches keeps poison harmlessly"]
+        "touches keeps poison harmlessly",
+        "regions with structure accesses are judged against read/write sets "
+        "known by construction (not replayed)"]
